@@ -8,7 +8,7 @@ from .stubs import StubRule, StubFile, make_rule_list
 
 def _sig(values, p, detail):
     if detail.get("kind") == "exception":
-        return "exception:%s@%s" % (detail.get("type"), (detail.get("where") or ["?"])[-1])
+        return "exception:%s@%s" % (detail.get("type"), __import__("re").sub(r":\d+:", ":", (detail.get("where") or ["?"])[-1]))
     import re
     failed = sorted(set(re.sub(r"\d+$", "", f) for f in detail.get("failed", [])))
     return "vc:" + ",".join(failed) if failed else "vc"
